@@ -32,8 +32,9 @@ def fit_effect_lines(ck, cls, fit_func):
             if not is_param:
                 continue
             for q, ln in e.lines:
-                if q == fit_func.qualname:
-                    lines.setdefault(ln, set()).add(e.detail)
+                # every frame of the effect: the statement of fit, and the statements of the private stages fit is split into
+                # (the CFG splices those in; the innermost spliced statement carries the effect)
+                lines.setdefault((q, ln), set()).add(e.detail)
     return lines, len(paths)
 
 
@@ -41,8 +42,11 @@ def run(ck):
     prog = ck.program
     fit = prog.method("NeuralStateBase", "fit")
     site = fit.site()
-    cfg = CFG(fit.node)
+    from ..model import private_helper_resolver
+
+    cfg = CFG(fit.node, resolver=private_helper_resolver(prog), owner=fit.qualname)
     ck.extra["cfg_nodes"] = len(cfg.nodes)
+    ck.extra["spliced_helpers"] = sorted({n.owner for n in cfg.nodes if n.inst})
     ck.extra["cfg_edges"] = sum(len(n.succ) for n in cfg.nodes)
     # ------------------------------------------------------------------ effects per class
     eff_lines = {}
@@ -55,7 +59,7 @@ def run(ck):
     if not eff_lines:
         ck.undecided("C12.R2", "effects", site, "could not determine the parameter effects of fit")
         return
-    ck.extra["effect_lines"] = {str(k): sorted(v) for k, v in eff_lines.items()}
+    ck.extra["effect_lines"] = {"%s:%s" % k if isinstance(k, tuple) else str(k): sorted(v) for k, v in eff_lines.items() if not isinstance(k, tuple) or k[0] in {n.owner for n in cfg.nodes}}
     # event calls must go through the local CallbackList
     ev_calls = [c for n in cfg.nodes for c in calls_in(n) if isinstance(c.func, ast.Attribute) and c.func.attr in P.EVENTS]
     ck.check(len(ev_calls) >= 6 and {c.func.attr for c in ev_calls} == set(P.EVENTS), "C12.R1", "six events dispatched", site,
